@@ -2649,4 +2649,267 @@ theorem reimport_resets_custom_metadata :
           tokenDenom 1 [.txt "b"], by simp, ?_⟩
   decide
 
+/-! ### protobuf messages dispatched by a contract (`CosmosMsg::Any`, bare or inside `authz.MsgExec`)
+
+Not an `Op` of the history machine either: `anyStep` is a separate entry point, and the theorems below reduce it to the
+machine — a dispatch that succeeds IS a history of the contract's own transactions (`any_ok_is_own_history`,
+`xrun_eq_run`), so every theorem above speaks about it; a dispatch with a message of somebody else at ANY position of ANY
+nesting is refused as a whole (`any_foreign_creator_refused`). -/
+
+theorem gate_self (st : St) (basic : Option Rej) (c : Addr) (k : St × Res) :
+    gate st basic 0 c c k = noAnte st basic k := by
+  unfold gate noAnte ante
+  cases basic <;> simp
+
+/-- behind the router a message whose declared signer is its creator runs exactly like that account's own transaction -/
+theorem TfMsg.exec_eq_step (st : St) (m : TfMsg) (h : m.signer = m.creator) : m.exec st = step st m.op := by
+  cases m <;> simp only [TfMsg.signer, TfMsg.creator] at h <;> subst h <;>
+    simp only [TfMsg.exec, TfMsg.op, step, gate_self]
+
+theorem TfMsg.adminAct_creator {m : TfMsg} {c : Addr} {d : Denom} (h : m.op.adminAct = some (c, d)) :
+    c = m.creator := by
+  cases m <;> simp [TfMsg.op, Op.adminAct, TfMsg.creator] at h ⊢ <;> exact h.1.symm
+
+theorem TfMsg.signed_op (m : TfMsg) : m.op.signed = some (m.signer, m.creator) := by
+  cases m <;> rfl
+
+theorem results_append (st : St) (x y : List Op) : results st (x ++ y) = results st x ++ results (run st x) y := by
+  induction x generalizing st with
+  | nil => rfl
+  | cons o os ih => simp only [List.cons_append, results, run, ih]
+
+mutual
+/-- `verifyCreatorOf` lets a message through only if EVERY token factory message in it — at every position of every
+`MsgExec`, at every depth — names the contract as creator -/
+theorem PMsg.verify_leaves {a : Addr} : ∀ (m : PMsg) (depth : Nat), m.verify a depth = true →
+    ∀ l ∈ m.leaves, l.creator = a
+  | .tf m, _, h => by
+    intro l hl
+    simp only [PMsg.leaves, List.mem_singleton] at hl
+    subst hl
+    simpa [PMsg.verify] using h
+  | .exec g ms, depth, h => by
+    simp only [PMsg.verify] at h
+    split at h
+    · simp at h
+    · simpa [PMsg.leaves] using PMsgs.verify_leaves ms (depth + 1) h
+theorem PMsgs.verify_leaves {a : Addr} : ∀ (ms : PMsgs) (depth : Nat), ms.verify a depth = true →
+    ∀ l ∈ ms.leaves, l.creator = a
+  | .nil, _, _ => by simp [PMsgs.leaves]
+  | .cons m ms, depth, h => by
+    simp only [PMsgs.verify] at h
+    split at h
+    · simp at h
+    · rename_i h1
+      intro l hl
+      simp only [PMsgs.leaves, List.mem_append] at hl
+      rcases hl with hl | hl
+      · exact PMsg.verify_leaves m depth (by simpa using h1) l hl
+      · exact PMsgs.verify_leaves ms depth h l hl
+end
+
+mutual
+/-- behind the router: a dispatch of messages that all name `a` as creator succeeds only if every declared signer is `a`
+too, and then it is the history of those messages run as `a`'s own transactions, each of which succeeds -/
+theorem PMsg.dispatch_ok {a : Addr} : ∀ (m : PMsg) (st st' : St), (∀ l ∈ m.leaves, l.creator = a) →
+    m.dispatch a st = (st', .ok) →
+    (∀ l ∈ m.leaves, l.signer = a) ∧ st' = run st (m.leaves.map TfMsg.op) ∧
+      (∀ r ∈ results st (m.leaves.map TfMsg.op), r = .ok)
+  | .tf m, st, st', hc, h => by
+    have hcm : m.creator = a := hc m (by simp [PMsg.leaves])
+    simp only [PMsg.dispatch] at h
+    split at h
+    · simp at h
+    · rename_i hs
+      have hs' : m.signer = a := by simpa using hs
+      rw [TfMsg.exec_eq_step st m (by rw [hs', hcm])] at h
+      refine ⟨?_, ?_, ?_⟩
+      · intro l hl
+        simp only [PMsg.leaves, List.mem_singleton] at hl
+        subst hl; exact hs'
+      · simp [PMsg.leaves, run, h]
+      · intro r hr
+        simp only [PMsg.leaves, List.map_cons, List.map_nil, results, h, List.mem_singleton] at hr
+        exact hr
+  | .exec g ms, st, st', hc, h => by
+    simp only [PMsg.dispatch] at h
+    split at h
+    · simp at h
+    · rename_i hg
+      have hg' : g = a := by simpa using hg
+      subst hg'
+      split at h
+      · simp at h
+      · simpa [PMsg.leaves] using PMsgs.dispatch_ok ms st st' (by simpa [PMsg.leaves] using hc) h
+theorem PMsgs.dispatch_ok {a : Addr} : ∀ (ms : PMsgs) (st st' : St), (∀ l ∈ ms.leaves, l.creator = a) →
+    ms.dispatch a st = (st', .ok) →
+    (∀ l ∈ ms.leaves, l.signer = a) ∧ st' = run st (ms.leaves.map TfMsg.op) ∧
+      (∀ r ∈ results st (ms.leaves.map TfMsg.op), r = .ok)
+  | .nil, st, st', _, h => by
+    simp only [PMsgs.dispatch, Prod.mk.injEq] at h
+    simp [PMsgs.leaves, run, results, h.1]
+  | .cons m ms, st, st', hc, h => by
+    simp only [PMsgs.dispatch] at h
+    split at h
+    · rename_i hne
+      simp only [Prod.mk.injEq] at h
+      exact absurd h.2 hne
+    · rename_i hok
+      have hok' : (m.dispatch a st).2 = .ok := by simpa using hok
+      have hc1 : ∀ l ∈ m.leaves, l.creator = a := fun l hl => hc l (by simp [PMsgs.leaves, hl])
+      have hc2 : ∀ l ∈ ms.leaves, l.creator = a := fun l hl => hc l (by simp [PMsgs.leaves, hl])
+      obtain ⟨s1, e1, r1⟩ := PMsg.dispatch_ok m st (m.dispatch a st).1 hc1 (pair_eta _ hok')
+      obtain ⟨s2, e2, r2⟩ := PMsgs.dispatch_ok ms (m.dispatch a st).1 st' hc2 h
+      refine ⟨?_, ?_, ?_⟩
+      · intro l hl
+        simp only [PMsgs.leaves, List.mem_append] at hl
+        rcases hl with hl | hl
+        · exact s1 l hl
+        · exact s2 l hl
+      · simp only [PMsgs.leaves, List.map_append, run_append]
+        rw [← e1]; exact e2
+      · intro r hr
+        simp only [PMsgs.leaves, List.map_append, results_append, List.mem_append] at hr
+        rcases hr with hr | hr
+        · exact r1 r hr
+        · rw [← e1] at hr; exact r2 r hr
+end
+
+/-- **only_admin_acts, contract protobuf path: a message of somebody else is never executed.**  If ANY token factory
+message of the dispatch — bare, or at any position of any (nested) `MsgExec`, before or after any number of the contract's
+own messages — names an account other than the dispatching contract as `metadata.creator`, the whole dispatch is refused
+by the router and nothing changes. -/
+theorem any_foreign_creator_refused (st : St) (a : Addr) (m : PMsg) (l : TfMsg) (hl : l ∈ m.leaves)
+    (hc : l.creator ≠ a) : anyStep st a m = (st, .rej .unauth) := by
+  unfold anyStep
+  split
+  · rfl
+  · rename_i hv
+    exact absurd (PMsg.verify_leaves m 0 (by simpa using hv) l hl) hc
+
+/-- **failed_op_is_noop** for dispatches: refused by the router, by wasmd, by authz, by `ValidateBasic` or by a handler
+(also of the LAST message, after earlier ones went through): the state is untouched. -/
+theorem any_failed_is_noop (st : St) (a : Addr) (m : PMsg) (h : (anyStep st a m).2 ≠ .ok) : (anyStep st a m).1 = st := by
+  unfold anyStep at h ⊢
+  by_cases hv : (!(m.verify a 0)) = true
+  · rw [if_pos hv]
+  · rw [if_neg hv] at h ⊢
+    by_cases hd : (m.dispatch a st).2 ≠ .ok
+    · rw [if_pos hd]
+    · rw [if_neg hd] at h
+      exact absurd h hd
+
+/-- **a successful dispatch is a history of the contract's own transactions.**  Every token factory message in it names
+the contract as creator AND as signer, each of them succeeds as the transaction `TfMsg.op` (signed by its creator, no fee
+grant involved), and the resulting state is the result of running those transactions in order.  Hence every theorem about
+`step` / `run` applies to dispatches. -/
+theorem any_ok_is_own_history {st st' : St} {a : Addr} {m : PMsg} (h : anyStep st a m = (st', .ok)) :
+    (∀ l ∈ m.leaves, l.creator = a ∧ l.signer = a) ∧ st' = run st (m.leaves.map TfMsg.op) ∧
+      (∀ r ∈ results st (m.leaves.map TfMsg.op), r = .ok) := by
+  unfold anyStep at h
+  split at h
+  · simp at h
+  · rename_i hv
+    have hc := PMsg.verify_leaves m 0 (by simpa using hv)
+    split at h
+    · rename_i hne
+      simp only [Prod.mk.injEq] at h
+      exact absurd h.2 hne
+    · obtain ⟨s1, e1, r1⟩ := PMsg.dispatch_ok m st st' hc h
+      exact ⟨fun l hl => ⟨hc l hl, s1 l hl⟩, e1, r1⟩
+
+/-- **only_admin_acts** on the contract protobuf path.  In a successful dispatch of contract `a`, every mint / burn /
+change-admin / set-metadata message — wherever it stands — acts for `a` itself, and `a` is the admin of the denomination
+in the state that message runs on (the state after the messages before it). -/
+theorem any_only_admin_acts {st st' : St} {a : Addr} {m : PMsg} (h : anyStep st a m = (st', .ok))
+    (p q : List TfMsg) (l : TfMsg) (c : Addr) (d : Denom) (hs : m.leaves = p ++ l :: q)
+    (ha : l.op.adminAct = some (c, d)) :
+    c = a ∧ (run st (p.map TfMsg.op)).admin d = some a := by
+  obtain ⟨hcs, _, hr⟩ := any_ok_is_own_history h
+  have hca : c = a := by
+    rw [TfMsg.adminAct_creator ha]
+    exact (hcs l (by rw [hs]; simp)).1
+  refine ⟨hca, ?_⟩
+  have hok : (step (run st (p.map TfMsg.op)) l.op).2 = .ok := by
+    apply hr
+    rw [hs]
+    simp [results_append, results]
+  have := only_admin_acts (pair_eta _ hok) ha
+  rw [hca] at this
+  exact this
+
+/-- the transactions a mixed history amounts to: a successful dispatch contributes its messages as the contract's own
+transactions, a refused one nothing -/
+def flatten (st : St) : List XOp → List Op
+  | [] => []
+  | .op o :: xs => o :: flatten (step st o).1 xs
+  | .any a m :: xs =>
+    (if (anyStep st a m).2 = .ok then m.leaves.map TfMsg.op else []) ++ flatten (anyStep st a m).1 xs
+
+/-- **histories with contract dispatches are histories of transactions.**  Every state reachable with protobuf dispatches
+of contracts interleaved anywhere is reached by the plain history `flatten`: the `_history` theorems above
+(`only_admin_acts_history`, `supply_eq_mints_minus_burns`, `new_denoms_only_in_own_namespace`, `created_once`,
+`non_factory_supply_constant`, …) hold for such histories as they stand. -/
+theorem xrun_eq_run (st : St) (xs : List XOp) : xrun st xs = run st (flatten st xs) := by
+  induction xs generalizing st with
+  | nil => rfl
+  | cons x xs ih =>
+    cases x with
+    | op o => simp only [xrun, xstep, flatten, run, ih]
+    | any a m =>
+      simp only [xrun, xstep, flatten, run_append, ih]
+      by_cases hok : (anyStep st a m).2 = .ok
+      · obtain ⟨_, e1, _⟩ := any_ok_is_own_history (pair_eta _ hok)
+        simp only [hok, if_true]
+        rw [← e1]
+      · rw [any_failed_is_noop st a m hok]
+        simp [hok, run]
+
+/-- every transaction of the flattened history that comes from a dispatch is signed by its own creator (no fee grant, no
+forged signer claim): `flatten` does not smuggle anybody's authority in -/
+theorem any_leaf_signed_by_creator {st st' : St} {a : Addr} {m : PMsg} (h : anyStep st a m = (st', .ok)) :
+    ∀ o ∈ m.leaves.map TfMsg.op, o.signed = some (a, a) := by
+  intro o ho
+  obtain ⟨l, hl, rfl⟩ := List.mem_map.mp ho
+  obtain ⟨hc, hs⟩ := (any_ok_is_own_history h).1 l hl
+  rw [TfMsg.signed_op, hc, hs]
+
+/-- the nesting bound: a `MsgExec` chain deeper than `cMaxNestedMsgDepth` is refused whatever it carries -/
+theorem any_too_deep_refused (st : St) (a : Addr) (g0 g1 g2 g3 g4 g5 g6 : Addr) (ms : PMsgs) :
+    anyStep st a (.exec g0 (.cons (.exec g1 (.cons (.exec g2 (.cons (.exec g3 (.cons (.exec g4 (.cons (.exec g5
+      (.cons (.exec g6 ms) .nil)) .nil)) .nil)) .nil)) .nil)) .nil)) = (st, .rej .unauth) := by
+  simp [anyStep, PMsg.verify, PMsgs.verify, maxNest]
+
+section AnyExamples
+
+/-- alice (0) is admin of gold with 100 coins; contract 4 has no role on it -/
+def exA : St := run exG [.create 0 0 0 [.txt "gold"], .mint 0 0 0 [.txt "factory", .addr 0, .txt "gold"] 100, .setfee 0]
+def exGold : Denom := [.txt "factory", .addr 0, .txt "gold"]
+def exOwn : Denom := [.txt "factory", .addr 4, .txt "own"]
+
+/-- the seeded shape: exec[burn in alice's name, create of the contract's own] — refused, nothing burned -/
+example : (anyStep exA 4 (.exec 4 (.cons (.tf (.burn 4 0 exGold 40)) (.cons (.tf (.create 4 4 [.txt "own"])) .nil)))).2
+    = .rej .unauth := by decide
+example : (anyStep exA 4 (.exec 4 (.cons (.tf (.burn 4 0 exGold 40)) (.cons (.tf (.create 4 4 [.txt "own"])) .nil)))).1.supply exGold
+    = 100 := by decide
+/-- offender last, offender nested, change-admin instead of burn: refused alike -/
+example : (anyStep exA 4 (.exec 4 (.cons (.tf (.create 4 4 [.txt "own"])) (.cons (.exec 4 (.cons (.tf (.chadmin 4 0 exGold (.addr 4))) .nil)) .nil)))).2
+    = .rej .unauth := by decide
+/-- the hypotheses of `any_ok_is_own_history` are satisfiable with a non-trivial effect: create, then the first mint of
+the new denomination, nested, in one dispatch -/
+example : (anyStep exA 4 (.exec 4 (.cons (.tf (.create 4 4 [.txt "own"])) (.cons (.exec 4 (.cons (.tf (.mint 4 4 exOwn 7)) .nil)) .nil)))).2 = .ok ∧
+    (anyStep exA 4 (.exec 4 (.cons (.tf (.create 4 4 [.txt "own"])) (.cons (.exec 4 (.cons (.tf (.mint 4 4 exOwn 7)) .nil)) .nil)))).1.bal 4 exOwn = 7 := by
+  decide
+/-- the admin's own dispatch works, and a later failing message takes the earlier ones back -/
+example : (anyStep exA 0 (.exec 0 (.cons (.tf (.burn 0 0 exGold 40)) .nil))).1.supply exGold = 60 := by decide
+example : (anyStep exA 0 (.exec 0 (.cons (.tf (.burn 0 0 exGold 40)) (.cons (.tf (.burn 0 0 exGold 61)) .nil)))).2 = .rej .funds ∧
+    (anyStep exA 0 (.exec 0 (.cons (.tf (.burn 0 0 exGold 40)) (.cons (.tf (.burn 0 0 exGold 61)) .nil)))).1.supply exGold = 100 := by
+  decide
+/-- a declared signer other than the contract, a foreign grantee, an empty `MsgExec` -/
+example : (anyStep exA 0 (.tf (.burn 1 0 exGold 40))).2 = .rej .unauth ∧
+    (anyStep exA 0 (.exec 1 (.cons (.tf (.burn 0 0 exGold 40)) .nil))).2 = .rej .unauth ∧
+    (anyStep exA 0 (.exec 0 .nil)).2 = .rej .other := by decide
+
+end AnyExamples
+
 end Paloma.TokenFactory
